@@ -208,7 +208,12 @@ def oracle_tripwire(run):
 def register(PROPS, COMPONENTS):
     COMPONENTS["tripwire"] = dict(client="tripwire", driver="tripwire", directed_runs=6, quick_runs=1500,
                                   thorough_runs=40000, oracle=oracle_tripwire,
-                                  cov_headers=["gmlc/concurrency/TripWire.hpp"])
+                                  cov_headers=["gmlc/concurrency/TripWire.hpp"],
+                                  # first use of the process-wide static lines from several threads at once (each run in a
+                                  # fresh process: the client does not touch the static lines beforehand)
+                                  fresh_scripts=["0;mkT:0:ix1,rm:0;mkD:0:ix1,wt:0,ck:0",
+                                                 "0;mkD:0:ix2,wt:0;mkT:0:ix2,rm:0;mkD:1:ix2,wt:1",
+                                                 "0;mkT:0:ix3,rm:0;mkD:0:ix3,wt:0;mkD:1:ix3,wt:1"], fresh_runs=8)
     PROPS["C19"] = dict(
         lean_files=["ConcVerif/Props/C19.lean"], components=["tripwire"], stage="B",
         level_text="Lean 4 theorems (kernel-checked; any number of lines, trigger objects, detectors, threads, moves and "
